@@ -50,3 +50,16 @@ package deferred
 //@   ensures no_finalize_without_writer [C20]: old(dcw.w) == nil ==> fx(dcw) == old(fx(dcw))
 //@   call[WritableCar.Finalize#0] assert only_if_written [C20]: dcw.w != nil && !old(dcw.closed)
 //@   ensures released [C08]: held(dcw.lk) == 0
+
+// Constructors (C20): nothing happens at construction — no file, no writer, not closed; the configuration is kept (a stream target gets WriteAsCarV1(true) prepended to its options).
+
+//@ func NewDeferredCarWriterForPath
+//@   effects require never [C20]: false
+//@   ensures lazy [C20]: result.w == nil && result.f == nil && !result.closed && result.outStream == nil
+//@   ensures configuration_kept [C20]: result.outPath == outPath && result.roots == roots && result.opts == opts
+
+//@ func NewDeferredCarWriterForStream
+//@   effects require never [C20]: false
+//@   ensures lazy [C20]: result.w == nil && result.f == nil && !result.closed
+//@   ensures no_path [C20]: len(result.outPath) == 0
+//@   ensures configuration_kept [C20]: ref(result.outStream) == ref(outStream) && result.roots == roots && len(result.opts) == len(old(opts)) + 1
